@@ -9,6 +9,7 @@ history; functools cache_info() of every module-level memo is read in the child 
 from __future__ import annotations
 
 import datetime
+import itertools
 import json
 import os
 import sys
@@ -102,6 +103,7 @@ Z: dict[str, Any] = {}
 
 
 _ENVS: dict[str, Any] = {}
+_HELD: dict[str, Any] = {}
 
 
 def _render_spec(spec: dict[str, Any]) -> Any:
@@ -126,11 +128,18 @@ def _render_spec(spec: dict[str, Any]) -> Any:
             env.add_filter("datetime", DateTime(default_locale=babel_locale))
             env.add_filter("unit", Unit(default_locale=babel_locale))
     data = V.dec(spec["data"])
+    if spec.get("rerender"):
+        # a template object the application obtained earlier and kept: rendered again with this data
+        t = _HELD[spec["rerender"]]
+        o = drv.render_async(t, data) if spec.get("async") else drv.render(t, data)
+        return o.key() if o.ok else ["err", o.err_class, drv.safe_str(o.exc).split("\n")[0][:100]]
     if spec.get("get"):
         # the template comes from the environment's (caching) loader; `globals` given with a request belong to that request only
         kw = {"globals": dict(spec["globals"])} if spec.get("globals") is not None else {}
         t = drv.call_async(env.get_template_async, spec["get"], **kw) if spec.get("async") else drv.call(env.get_template, spec["get"], **kw)
         o = (drv.render_async(t.value, data) if spec.get("async") else drv.render(t.value, data)) if t.ok else t
+        if t.ok and spec.get("hold"):
+            _HELD[spec["hold"]] = t.value
     else:
         o = drv.parse_and_render(env, spec["source"], data, use_async=spec.get("async", False))
     return o.key() if o.ok else ["err", o.err_class, drv.safe_str(o.exc).split("\n")[0][:100]]
@@ -323,9 +332,10 @@ def judge(ctx: core.Ctx, case: dict[str, Any]) -> None:
         if h not in ctx.nontrivial_hashes:
             ctx.nontrivial_hashes.add(h)
         return
-    # history case
-    alone = in_child([], case["probe"])
-    after = in_child(case["history"], case["probe"])
+    # history case (prefix: what both children do first, e.g. obtaining the template object that the probe renders again)
+    prefix = case.get("prefix") or []
+    alone = in_child(prefix, case["probe"])
+    after = in_child(prefix + case["history"], case["probe"])
     ctx.count("history_pairs")
     ctx.evaluations += 1
     mh = after.get("memo_hits", {})
@@ -338,12 +348,14 @@ def judge(ctx: core.Ctx, case: dict[str, Any]) -> None:
         # shrink the history: which single earlier render is enough?
         culprit = None
         for spec in case["history"]:
-            if in_child([spec], case["probe"])["result"] != alone["result"]:
+            if in_child(prefix + [spec], case["probe"])["result"] != alone["result"]:
                 culprit = spec
                 break
         tag = case.get("aim", "generated")
+        if prefix and culprit is not None and culprit.get("get"):
+            culprit = dict(culprit, source=f"get_template({culprit['get']!r}) and its render")
         ctx.violation(
-            f"history-dependent:{tag}:{construct_of(case['probe']['source'])}",
+            f"history-dependent:{tag}:{construct_of(case['probe']['source'])}" if not prefix else f"history-dependent:{tag}",
             f"probe {case['probe']['source']!r:.200} with data {case['probe']['data']!r:.200} gives {alone['result']} alone but {after['result']} after "
             + (f"the single earlier render {culprit['source']!r:.200} with data {culprit['data']!r:.200} env {culprit.get('env')}" if culprit else f"a history of {len(case['history'])} renders"),
         )
@@ -551,8 +563,34 @@ def gen_purity_case(rng) -> dict[str, Any]:
     return {"kind": "purity", "source": src, "data": V.enc(tpl.make_data(rng, hostile=0.05, drop=0.1)), "env": {"extra": extra, "mode": rng.choice(["strict", "lax"])}, "async": rng.random() < 0.2}
 
 
+def held_template_cases():
+    """An application keeps a template object it got from a caching loader (with globals pinned to it) and renders it again after other
+    templates - which include / render / extend the same name - were rendered in the same environment."""
+    tpls = {"t2": "<t2>[g={{ g }}][x={{ x }}]", "t1": "<t1>{% include 't2' %}", "t3": "{% render 't2', x: 5 %}", "t4": "{% extends 't2' %}", "t5": "<t5>{{ g }}", "t6": "{% include 't1' %}"}
+    for capacity, auto_reload, eglobals in itertools.product((1, 8), (False, True), (None, {"g": "EG"})):
+        e = {"templates": tpls, "capacity": capacity, "auto_reload": auto_reload}
+        if eglobals:
+            e["globals"] = eglobals
+        for pinned in ({"g": "PINNED"}, None):
+            for others in (["t3"], ["t1"], ["t4"], ["t5"], ["t6"], ["t5", "t3", "t5"]):
+                for is_async in (False, True):
+                    first = spec("", {"x": 1}, e, is_async)
+                    first.update(get="t2", globals=pinned, hold="kept")
+                    hist = []
+                    for name in others:
+                        h = spec("", {"x": 2}, e, is_async)
+                        h.update(get=name, globals=None)
+                        hist.append(h)
+                    probe = spec("", {"x": 1}, e, is_async)
+                    probe.update(rerender="kept")
+                    yield {"kind": "history", "aim": "template-object-kept-across-other-renders", "prefix": [first], "history": hist, "probe": probe}
+
+
 def cases(ctx: core.Ctx):
     rng = ctx.rng("cases")
+    for gi, c in enumerate(held_template_cases()):
+        if gi % ctx.nshards == ctx.shard and (ctx.tier != "quick" or gi % 2 == 0):
+            yield c
     if ctx.shard == 0:
         yield from batch_cases()
         yield from poison_batch_cases()
